@@ -136,6 +136,21 @@ func TestCheck(t *testing.T) {
 			cases = append(cases, prog.Case{PageSize: 65536, Start: 16383, StartWAL: true, Ops: ops})
 		}
 	}
+	// Free-list leaves: the transaction grows the database by pages it never writes a frame for (SQLite does not write
+	// leaves it allocates and frees again); later transactions use, or truncate away, those pages; SQLite's and
+	// LiteFS's checkpoints and a restart in between.
+	for _, ps := range []int{512, 4096} {
+		for _, s := range []uint32{3, 255} {
+			fl := func(newSize uint32) prog.Op {
+				return prog.Op{Kind: "wtx", W: &pager.WTx{Frames: []uint32{1, 2}, NewSize: newSize, FreeLeaves: true, Outcome: "commit"}}
+			}
+			for _, mid := range [][]prog.Op{{}, {{Kind: "ckpt", Mode: "PASSIVE"}}, {{Kind: "ckpt", Mode: "TRUNCATE"}}, {{Kind: "recover"}}, {{Kind: "restart"}}} {
+				ops := append([]prog.Op{fl(s + 3)}, mid...)
+				ops = append(ops, wtx([]uint32{1, s + 1}, 0, 0, "commit"), wtx([]uint32{1}, s, 0, "commit"), prog.Op{Kind: "recover"}, wtx([]uint32{2}, 0, 0, "commit"))
+				cases = append(cases, prog.Case{PageSize: ps, Start: s, StartWAL: true, Ops: ops})
+			}
+		}
+	}
 	// Big-endian checksum order and LZ4: a slice of the programs.
 	n := len(cases)
 	for i := 0; i < n; i += 11 {
